@@ -1,10 +1,9 @@
 /-
-What the t-digest API reports for a decoded image (executed only, never reasoned about: Lean `Float` /
-`Float32` are IEEE binary64/32 and the operations are applied in the order of tdigest_impl.hpp
-`get_rank` / `get_quantile`).  Used by `project`: k, total weight, is_empty, min, max and — when the
-image holds no buffered values (so that the query does not first run a merge pass) — get_rank at nine
-probe points spanning [min, max] and get_quantile at seven probe ranks.
-Core Lean only.
+What the t-digest API reports for a decoded image (executed only, never reasoned about).  `project`:
+k, total weight, is_empty, min, max, the centroids (mean, weight) and the buffered values — deliberately
+NOT the rank/quantile estimates, so that a repair of an estimator in the C++ does not disturb the wire tie.
+`Float`/`Float32` are used only for the conversions the reader of the big-endian reference formats performs
+(double/float → T, weight → W, compression → uint16).  Core Lean only.
 -/
 import DSModel.Wire.TDigest
 import DSModel.Util
@@ -32,132 +31,40 @@ def opsF : TOps :=
     sub := fun a b => (f32 a - f32 b).toBits.toNat, div := fun a b => (f32 a / f32 b).toBits.toNat,
     ofF := fun x => x.toFloat32.toBits.toNat }
 
-/-- the state the queries read: min, max (T bits), centroids (mean T bits, weight) -/
+/-- what the image determines: k, min, max (T bits), centroids (mean T bits, weight), buffered values -/
 structure Api where
   k : Nat
   mn : Nat
   mx : Nat
   cs : Array (Nat × Nat)
-  nbuf : Nat
+  buf : Array Nat
 
-def Api.totalW (a : Api) : Nat := a.cs.foldl (fun s c => s + c.2) 0 + a.nbuf
-
-def wF (w : Nat) : Float := (UInt64.ofNat w).toFloat
-
-/-- `tdigest::get_rank(value)` for a sketch without buffered values -/
-def getRank (o : TOps) (a : Api) (v : Nat) : Float := Id.run do
-  let f := o.toF
-  let cs := a.cs
-  let W := wF (cs.foldl (fun s c => s + c.2) 0)
-  if f v < f a.mn then return 0
-  if f v > f a.mx then return 1
-  if cs.size == 1 then return 0.5
-  let first := cs[0]!
-  let last := cs[cs.size - 1]!
-  if f v < f first.1 then
-    if f (o.sub first.1 a.mn) > 0 then
-      if f v == f a.mn then return 0.5 / W
-      return 1.0 + f (o.div (o.sub v a.mn) (o.sub first.1 a.mn)) * (wF first.2 / 2.0 - 1.0)
-    return 0
-  if f v > f last.1 then
-    if f (o.sub a.mx last.1) > 0 then
-      if f v == f a.mx then return 1.0 - 0.5 / W
-      return 1.0 - ((1.0 + f (o.div (o.sub a.mx v) (o.sub a.mx last.1)) * (wF last.2 / 2.0 - 1.0)) / W)
-    return 1
-  -- lower_bound / upper_bound on the means
-  let mut lower := cs.size
-  for i in [0:cs.size] do
-    if lower == cs.size && !(f cs[i]!.1 < f v) then lower := i
-  let mut upper := cs.size
-  for i in [lower:cs.size] do
-    if upper == cs.size && f v < f cs[i]!.1 then upper := i
-  if f v < f cs[lower]!.1 then lower := lower - 1
-  if upper == cs.size || !(f cs[upper - 1]!.1 < f v) then upper := upper - 1
-  let mut wb : Float := 0
-  for i in [0:lower] do wb := wb + wF cs[i]!.2
-  wb := wb + wF cs[lower]!.2 / 2.0
-  let mut wd : Float := 0
-  for i in [lower:upper] do wd := wd + wF cs[i]!.2
-  wd := wd - wF cs[lower]!.2 / 2.0
-  wd := wd + wF cs[upper]!.2 / 2.0
-  let lm := cs[lower]!.1
-  let um := cs[upper]!.1
-  if f (o.sub um lm) > 0 then
-    return (wb + wd * f (o.sub v lm) / f (o.sub um lm)) / W
-  return (wb + wd / 2.0) / W
-
-/-- `tdigest::get_quantile(rank)` for a sketch without buffered values (returns T bits) -/
-def getQuantile (o : TOps) (a : Api) (rank : Float) : Nat := Id.run do
-  let f := o.toF
-  let cs := a.cs
-  let Wn := cs.foldl (fun s c => s + c.2) 0
-  let W := wF Wn
-  if cs.size == 1 then return cs[0]!.1
-  let weight := rank * W
-  if weight < 1 then return a.mn
-  if weight > W - 1.0 then return a.mx
-  let first := cs[0]!
-  let last := cs[cs.size - 1]!
-  let fw := wF first.2
-  if fw > 1 && weight < fw / 2.0 then
-    return o.ofF (f a.mn + (weight - 1.0) / (fw / 2.0 - 1.0) * f (o.sub first.1 a.mn))
-  let lw := wF last.2
-  if lw > 1 && W - weight <= lw / 2.0 then
-    return o.ofF (f a.mx + (W - weight - 1.0) / (lw / 2.0 - 1.0) * f (o.sub a.mx last.1))
-  let mut wsf := fw / 2.0
-  for i in [0:cs.size - 1] do
-    let ci := cs[i]!
-    let cj := cs[i + 1]!
-    let dw := wF ((ci.2 + cj.2) % 256 ^ o.wsz) / 2.0
-    if wsf + dw > weight then
-      let mut lwt : Float := 0
-      if ci.2 == 1 then
-        if weight - wsf < 0.5 then return ci.1
-        lwt := 0.5
-      let mut rwt : Float := 0
-      if cj.2 == 1 then
-        if wsf + dw - weight <= 0.5 then return cj.1
-        rwt := 0.5
-      let w1 := weight - wsf - lwt
-      let w2 := wsf + dw - weight - rwt
-      return o.ofF ((f ci.1 * w1 + f cj.1 * w2) / (w1 + w2))
-    wsf := wsf + dw
-  let w1 := weight - W - lw / 2.0
-  let w2 := lw / 2.0 - w1
-  return o.ofF ((lw * w1 + f a.mx * w2) / (w1 + w2))
-
-def probeRanks : List Float := [0.0, 0.015625, 0.25, 0.5, 0.75, 0.984375, 1.0]
-
-/-- nine probe points min + (max - min)·j/8 (computed in double, cast to T) -/
-def probePoints (o : TOps) (a : Api) : List Nat :=
-  (List.range 9).map fun j => o.ofF (o.toF a.mn + (o.toF a.mx - o.toF a.mn) * (j.toFloat / 8.0))
+def Api.totalW (a : Api) : Nat := a.cs.foldl (fun s c => s + c.2) 0 + a.buf.size
 
 def hexT (o : TOps) (b : Nat) : String := hexN (2 * o.tsz) b
 
 def apiLine (o : TOps) (a : Api) : String :=
   let w := a.totalW
-  if w == 0 then s!"k={a.k} w=0 empty=1 min=- max=- R - Q -"
+  if w == 0 then s!"k={a.k} w=0 empty=1 min=- max=- C 0 B 0"
   else
-    let head := s!"k={a.k} w={w} empty=0 min={hexT o a.mn} max={hexT o a.mx}"
-    if a.nbuf > 0 || a.cs.size == 0 then head ++ " R - Q -"
-    else
-      head ++ " R " ++ joinSp ((probePoints o a).map fun x => hexF (getRank o a x)) ++
-        " Q " ++ joinSp (probeRanks.map fun r => hexT o (getQuantile o a r))
+    s!"k={a.k} w={w} empty=0 min={hexT o a.mn} max={hexT o a.mx} C {a.cs.size}" ++
+      a.cs.foldl (fun s c => s ++ s!" {hexT o c.1}:{c.2}") "" ++ s!" B {a.buf.size}" ++
+      a.buf.foldl (fun s v => s ++ s!" {hexT o v}") ""
 
 def apiOfImg (s : Img) : Api :=
   match s.body with
-  | .empty => { k := s.k, mn := 0, mx := 0, cs := #[], nbuf := 0 }
-  | .single v => { k := s.k, mn := v, mx := v, cs := #[(v, 1)], nbuf := 0 }
-  | .multi mn mx cents buf => { k := s.k, mn := mn, mx := mx, cs := cents.toArray, nbuf := buf.length }
+  | .empty => { k := s.k, mn := 0, mx := 0, cs := #[], buf := #[] }
+  | .single v => { k := s.k, mn := v, mx := v, cs := #[(v, 1)], buf := #[] }
+  | .multi mn mx cents buf => { k := s.k, mn := mn, mx := mx, cs := cents.toArray, buf := buf.toArray }
 
 /-- what `tdigest<T>::deserialize` makes of a reference-format image (conversions double/float → T, W, uint16) -/
 def apiOfLegacy (o : TOps) : Legacy → Api
   | .big mn mx comp cents =>
-    { k := (f64 comp).toUInt16.toNat, mn := o.ofF (f64 mn), mx := o.ofF (f64 mx), nbuf := 0,
+    { k := (f64 comp).toUInt16.toNat, mn := o.ofF (f64 mn), mx := o.ofF (f64 mx), buf := #[],
       cs := (cents.map fun p => (o.ofF (f64 p.2),
         if o.wsz == 8 then (f64 p.1).toUInt64.toNat else (f64 p.1).toUInt32.toNat)).toArray }
   | .small mn mx comp _ _ cents =>
-    { k := (f32 comp).toUInt16.toNat, mn := o.ofF (f64 mn), mx := o.ofF (f64 mx), nbuf := 0,
+    { k := (f32 comp).toUInt16.toNat, mn := o.ofF (f64 mn), mx := o.ofF (f64 mx), buf := #[],
       cs := (cents.map fun p => (o.ofF (f32 p.2).toFloat,
         if o.wsz == 8 then (f32 p.1).toUInt64.toNat else (f32 p.1).toUInt32.toNat)).toArray }
 
